@@ -227,6 +227,8 @@ trait Lin: Sized {
   /// oracle-side ordinal and a canonical description of the library value
   fn ord(&self) -> Option<i64>;
   fn canon(&self) -> String;
+  /// the wrapped type's own equality
+  fn same(&self, o: &Self) -> bool;
   fn step(&self, n: i64) -> Self;
   /// ordinals that must not be used (e.g. reform-era days); default none
   fn avoid(_o: i64) -> bool {
@@ -256,6 +258,9 @@ impl Lin for SY {
   fn canon(&self) -> String {
     format!("{}", self.0.get_year())
   }
+  fn same(&self, o: &Self) -> bool {
+    self.0 == o.0
+  }
   fn step(&self, n: i64) -> Self {
     SY(self.0.next(n as isize))
   }
@@ -275,6 +280,9 @@ impl Lin for SH {
   }
   fn canon(&self) -> String {
     format!("{}-H{}", self.0.get_year(), self.0.get_index())
+  }
+  fn same(&self, o: &Self) -> bool {
+    self.0 == o.0
   }
   fn step(&self, n: i64) -> Self {
     SH(self.0.next(n as isize))
@@ -296,6 +304,9 @@ impl Lin for SS {
   fn canon(&self) -> String {
     format!("{}-Q{}", self.0.get_year(), self.0.get_index())
   }
+  fn same(&self, o: &Self) -> bool {
+    self.0 == o.0
+  }
   fn step(&self, n: i64) -> Self {
     SS(self.0.next(n as isize))
   }
@@ -315,6 +326,9 @@ impl Lin for SM {
   }
   fn canon(&self) -> String {
     format!("{}-{}", self.0.get_year(), self.0.get_month())
+  }
+  fn same(&self, o: &Self) -> bool {
+    self.0 == o.0
   }
   fn step(&self, n: i64) -> Self {
     SM(self.0.next(n as isize))
@@ -339,6 +353,9 @@ impl Lin for SD {
   fn canon(&self) -> String {
     fmt_ymd(ymd(&self.0))
   }
+  fn same(&self, o: &Self) -> bool {
+    self.0 == o.0
+  }
   fn step(&self, n: i64) -> Self {
     SD(self.0.next(n as isize))
   }
@@ -361,6 +378,9 @@ impl Lin for ST {
   }
   fn canon(&self) -> String {
     format!("{}", self.0)
+  }
+  fn same(&self, o: &Self) -> bool {
+    self.0 == o.0
   }
   fn step(&self, n: i64) -> Self {
     ST(self.0.next(n as isize))
@@ -396,6 +416,9 @@ impl Lin for SW {
   fn canon(&self) -> String {
     format!("week starting {}", fmt_ymd(ymd(&self.0.get_first_day())))
   }
+  fn same(&self, o: &Self) -> bool {
+    self.0 == o.0
+  }
   fn step(&self, n: i64) -> Self {
     SW(self.0.next(n as isize))
   }
@@ -418,6 +441,9 @@ impl Lin for TM {
   }
   fn canon(&self) -> String {
     format!("{}/{} jd {}", self.0.get_year(), self.0.get_index(), self.0.get_cursory_julian_day())
+  }
+  fn same(&self, o: &Self) -> bool {
+    self.0 == o.0
   }
   fn step(&self, n: i64) -> Self {
     TM(self.0.next(n as isize))
@@ -444,6 +470,9 @@ impl Lin for JD {
   fn canon(&self) -> String {
     format!("{}", self.0.get_day())
   }
+  fn same(&self, o: &Self) -> bool {
+    self.0 == o.0
+  }
   fn step(&self, n: i64) -> Self {
     JD(self.0.next(n as isize))
   }
@@ -463,6 +492,9 @@ impl Lin for LY {
   }
   fn canon(&self) -> String {
     format!("{}", self.0.get_year())
+  }
+  fn same(&self, o: &Self) -> bool {
+    self.0 == o.0
   }
   fn step(&self, n: i64) -> Self {
     LY(self.0.next(n as isize))
@@ -486,6 +518,9 @@ impl Lin for LMo {
   fn canon(&self) -> String {
     let (y, m) = lym(&self.0);
     format!("{} first {} days {} idx {}", fmt_lym(y, m), first_dn(&self.0), self.0.get_day_count(), self.0.get_index_in_year())
+  }
+  fn same(&self, o: &Self) -> bool {
+    self.0 == o.0
   }
   fn step(&self, n: i64) -> Self {
     LMo(self.0.next(n as isize))
@@ -519,6 +554,9 @@ impl Lin for LD {
   fn canon(&self) -> String {
     let v = self.0.get_sixty_cycle_day();
     format!("{} civil {} view {} {}", fmt_lymd(lymd(&self.0)), fmt_ymd(ymd(&self.0.get_solar_day())), fmt_ymd(ymd(&v.get_solar_day())), v.get_sixty_cycle().get_name())
+  }
+  fn same(&self, o: &Self) -> bool {
+    self.0 == o.0
   }
   fn step(&self, n: i64) -> Self {
     LD(self.0.next(n as isize))
@@ -557,6 +595,9 @@ impl Lin for LW {
   fn canon(&self) -> String {
     format!("lunar week starting {}", fmt_ymd(ymd(&self.0.get_first_day().get_solar_day())))
   }
+  fn same(&self, o: &Self) -> bool {
+    self.0 == o.0
+  }
   fn step(&self, n: i64) -> Self {
     LW(self.0.next(n as isize))
   }
@@ -590,6 +631,9 @@ impl Lin for LH {
     let v = self.0.get_sixty_cycle_hour();
     format!("{} {:02}:{:02}:{:02} civil {} view {} {} {}", fmt_lymd(lymd(&self.0.get_lunar_day())), self.0.get_hour(), self.0.get_minute(), self.0.get_second(), self.0.get_solar_time(), v.get_solar_time(), v.get_day().get_name(), v.get_sixty_cycle().get_name())
   }
+  fn same(&self, o: &Self) -> bool {
+    self.0 == o.0
+  }
   fn step(&self, n: i64) -> Self {
     LH(self.0.next(n as isize))
   }
@@ -616,6 +660,9 @@ impl Lin for CY {
   fn canon(&self) -> String {
     format!("{} {}", self.0.get_year(), self.0.get_sixty_cycle().get_name())
   }
+  fn same(&self, o: &Self) -> bool {
+    self.0 == o.0
+  }
   fn step(&self, n: i64) -> Self {
     CY(self.0.next(n as isize))
   }
@@ -635,6 +682,9 @@ impl Lin for CM {
   }
   fn canon(&self) -> String {
     format!("{} {}", self.0.get_sixty_cycle_year().get_year(), self.0.get_sixty_cycle().get_name())
+  }
+  fn same(&self, o: &Self) -> bool {
+    self.0 == o.0
   }
   fn step(&self, n: i64) -> Self {
     CM(self.0.next(n as isize))
@@ -659,6 +709,9 @@ impl Lin for CD {
   fn canon(&self) -> String {
     format!("{} {} {} {}", fmt_ymd(ymd(&self.0.get_solar_day())), self.0.get_year().get_name(), self.0.get_month().get_name(), self.0.get_sixty_cycle().get_name())
   }
+  fn same(&self, o: &Self) -> bool {
+    self.0 == o.0
+  }
   fn step(&self, n: i64) -> Self {
     CD(self.0.next(n as isize))
   }
@@ -681,6 +734,9 @@ impl Lin for CH {
   }
   fn canon(&self) -> String {
     format!("{} {} {} {} {}", self.0.get_solar_time(), self.0.get_year().get_name(), self.0.get_month().get_name(), self.0.get_day().get_name(), self.0.get_sixty_cycle().get_name())
+  }
+  fn same(&self, o: &Self) -> bool {
+    self.0 == o.0
   }
   fn step(&self, n: i64) -> Self {
     CH(self.0.next(n as isize))
@@ -713,6 +769,9 @@ impl Lin for DF {
   fn canon(&self) -> String {
     format!("{} age {} {}", self.0.get_index(), self.0.get_start_age(), self.0.get_sixty_cycle().get_name())
   }
+  fn same(&self, o: &Self) -> bool {
+    self.0 == o.0
+  }
   fn step(&self, n: i64) -> Self {
     DF(self.0.next(n as isize))
   }
@@ -732,6 +791,9 @@ impl Lin for FO {
   }
   fn canon(&self) -> String {
     format!("{} age {} {} {}", self.0.get_index(), self.0.get_age(), self.0.get_sixty_cycle().get_name(), self.0.get_sixty_cycle_year().get_year())
+  }
+  fn same(&self, o: &Self) -> bool {
+    self.0 == o.0
   }
   fn step(&self, n: i64) -> Self {
     FO(self.0.next(n as isize))
@@ -784,8 +846,8 @@ fn laws<T: Lin>(cases: usize, cfg: &Cfg, chunk: usize) -> Log {
         out.push(("linear-ordinal", format!("{:?} ({})", v.ord(), c0), format!("{}", x)));
       }
       let id = v.step(0);
-      if id.canon() != c0 {
-        out.push(("linear-identity", id.canon(), c0.clone()));
+      if id.canon() != c0 || !id.same(&v) {
+        out.push(("linear-identity", format!("{} (== {})", id.canon(), id.same(&v)), c0.clone()));
       }
       let va = v.step(a);
       if va.ord() != Some(x + a * unit) {
@@ -793,16 +855,16 @@ fn laws<T: Lin>(cases: usize, cfg: &Cfg, chunk: usize) -> Log {
       }
       let vab = va.step(b);
       let direct = v.step(a + b);
-      if vab.canon() != direct.canon() || vab.ord() != Some(x + (a + b) * unit) {
+      if vab.canon() != direct.canon() || vab.ord() != Some(x + (a + b) * unit) || !vab.same(&direct) {
         out.push(("linear-compose", format!("next({}).next({}) = {} ; next({}) = {}", a, b, vab.canon(), a + b, direct.canon()), format!("equal, ordinal {}", x + (a + b) * unit)));
       }
       let back = va.step(-a);
-      if back.canon() != c0 {
+      if back.canon() != c0 || !back.same(&v) {
         out.push(("linear-inverse", format!("next({}).next({}) = {}", a, -a, back.canon()), c0.clone()));
       }
       // the fresh construction of the target equals the stepped value
       let fresh = T::mk(x + a * unit);
-      if fresh.canon() != va.canon() {
+      if fresh.canon() != va.canon() || !fresh.same(&va) {
         out.push(("linear-fresh", format!("stepped {} / constructed {}", va.canon(), fresh.canon()), "equal".into()));
       }
       out
